@@ -208,7 +208,7 @@ def r16_2(run, model):
     run.ob("R16.2", f"{f.qual}|temporary mark brackets the recursion", order_ok, site(PK, f.node["sp"]),
            "temp.insert precedes the recursive visit and temp.remove follows it" if order_ok else "temporary mark is not set around the recursion")
     d = model.fn("discover_packages_with_layout", PK)
-    if_returns_err(d, lambda t: "package.name!=package_name" in t or "package_name!=package.name" in t or "declared_name!=package_name" in t,
+    if_returns_err(d, lambda t: re.search(r"(^|[^\w.])package\.name!=\w+($|[^\w.(])|(^|[^\w.])\w+!=package\.name($|[^\w.(])|declared_name!=\w+", t.replace(" ", "")) is not None,
                    "declared name equals directory name", "directory Lib/ containing `package Other` is loaded as Lib")
     if_returns_err(d, lambda t: "entry_name!=" in t and "root_package_name" in t, "root declares the root package", "root directory declaring another package is accepted")
     # load_package: every file is compared with the package name established so far
